@@ -214,6 +214,13 @@ def r4_id_address(r, facts):
                 okb = fam.last_field(base) == 'bufs_addr'
                 okm = off[0] == 'bin' and off[1].startswith('Mul') and any(_is_id(strip_casts(y)) for y in (off[2], off[3])) and any(_is_buf_size(y) for y in (off[2], off[3]))
                 ok = okb and okm
+                if okm:
+                    for y in (off[2], off[3]):
+                        if y[0] == 'cast' and y[1] == 'IntToInt' and y[3] not in ('usize', 'isize', 'u64', 'i64'):
+                            r.bad('init_buffer/narrow-mul', 'id * buf_size is computed in %s: overflows for pools of 4 GiB and more' % y[3], f.where(loc))
+                    outer = adds[0][2][1]
+                    if outer[0] == 'cast' and outer[1] == 'IntToInt' and outer[2] not in ('usize', 'isize', 'u64', 'i64'):
+                        r.bad('init_buffer/narrow-mul', 'id * buf_size is computed in %s and widened afterwards: overflows for pools of 4 GiB and more' % outer[2], f.where(loc))
                 r.inst('init_buffer -> %s' % (p,), f.where(loc))
             ln = strip_casts(eb.operand(t['args'][1]))
             r.require(ln[0] == 'arg' and ln[2] == 'n', 'init_buffer/len', 'initialised length is not the kernel-reported n', f.where(loc))
@@ -231,6 +238,18 @@ def r4_id_address(r, facts):
             okl = fam.last_field(ln) == 'buf_size'
             okb = bid[0] == 'bin' and bid[1] == 'Div' and _is_buf_size(bid[3])
             num = strip_casts(bid[2]) if okb else None
+            # the byte offset into the pool and the stride must be divided in full width: any narrowing
+            # cast between offset_from and the division truncates offsets of pools >= 4 GiB
+            if okb:
+                for side, what in ((bid[2], 'the byte offset of the released buffer'), (bid[3], 'the buffer size')):
+                    x = side
+                    while x[0] == 'cast' or (x[0] == 'proj' and x[2] == ('.0',) and x[1][0] == 'bin'):
+                        if x[0] == 'cast':
+                            if x[1] == 'IntToInt' and x[3] not in ('usize', 'isize', 'u64', 'i64', 'u128', 'i128'):
+                                r.bad('release/bid-narrowed', '%s is narrowed to %s before the division that derives the buffer id: for pools of 4 GiB and more a wrong (lower) id is re-offered and two ReadBufs end up owning one buffer' % (what, x[3]), g.where(loc))
+                            x = x[4]
+                        else:
+                            x = x[1]
             okn = okb and num[0] == 'call' and num[1].endswith('offset_from') and num[2][0][0] == 'arg' and num[2][0][1] == 2 and fam.last_field(num[2][1]) == 'bufs_addr'
             okr = oka and okl and okn
             r.inst('release re-offers addr=%s len=%s bid=%s' % (fl['addr'], ln, fl['bid']), g.where(loc))
